@@ -136,20 +136,123 @@ struct PoolCase
 };
 static std::unique_ptr<PoolCase> PC;
 
+// ---- one pool_head fed from several zones (pool_engage at arbitrary points of the history)
+struct MZone
+{
+    std::unique_ptr<exact_buf> buf; // exactly sized: ASan sees every access outside the zone
+    size_t n, e;
+};
+struct MPoolCase
+{
+    pool_head head;
+    std::vector<MZone> zones;
+    std::map<std::pair<size_t, size_t>, uint64_t> live; // (zone, offset) -> pattern seed
+    size_t cap = 0;                                     // sum of the cells of all zones engaged so far
+    uint64_t ctr = 1;
+
+    // which zone does the pointer point into?  (-1: none)
+    long zone_of(const void *q) const
+    {
+        for (size_t k = 0; k < zones.size(); k++)
+            if ((const uint8_t *)q >= zones[k].buf->p && (const uint8_t *)q < zones[k].buf->p + zones[k].n * zones[k].e) return (long)k;
+        return -1;
+    }
+    std::string name(const void *q) const
+    {
+        if (!q) return "null";
+        long k = zone_of(q);
+        if (k < 0) return "outside";
+        return s(k) + ":" + s((const uint8_t *)q - zones[(size_t)k].buf->p);
+    }
+    void check_patterns(out &o)
+    {
+        for (auto &kv : live)
+        {
+            const MZone &z = zones[kv.first.first];
+            for (size_t i = 0; i < z.e; i++)
+                if (z.buf->p[kv.first.second + i] != pat(kv.second, i))
+                {
+                    o.fail("contents of live cell " + s(kv.first.first) + ":" + s(kv.first.second) + " changed at byte " + s(i));
+                    return;
+                }
+        }
+    }
+    void check_new(void *q, out &o)
+    {
+        if (q == nullptr)
+        {
+            if (live.size() != cap) o.fail("null with " + s(live.size()) + " of " + s(cap) + " cells live (capacity = sum of the zones)");
+            return;
+        }
+        if (live.size() >= cap) o.fail("non-null although all " + s(cap) + " cells are live");
+        long k = zone_of(q);
+        if (k < 0)
+        {
+            o.fail("cell outside every engaged zone");
+            return;
+        }
+        const MZone &z = zones[(size_t)k];
+        size_t off = (uint8_t *)q - z.buf->p;
+        if (off % z.e) o.fail("cell offset " + s(off) + " not a multiple of the zone's elemsz");
+        if (off + z.e > z.n * z.e) o.fail("cell reaches behind its zone");
+        if ((uintptr_t)q % alignof(void *)) o.fail("cell misaligned");
+        for (auto &kv : live)
+            if (kv.first.first == (size_t)k && off < kv.first.second + z.e && kv.first.second < off + z.e)
+                o.fail("cell " + name(q) + " overlaps live cell " + s(k) + ":" + s(kv.first.second));
+        uint64_t sd = ctr++;
+        live[{(size_t)k, off}] = sd;
+        for (size_t i = 0; i < z.e; i++) z.buf->p[off + i] = pat(sd, i);
+    }
+    // the free list as the code links it: every entry is a cell of a zone, not live, no entry twice,
+    // and together with the live cells they are ALL cells of all zones (nothing lost, nothing invented)
+    void check_freelist(out &o)
+    {
+        std::set<std::pair<size_t, size_t>> seen;
+        size_t steps = 0;
+        for (slist_head *it = head.free_blocks.next; it != &head.free_blocks; it = it->next)
+        {
+            if (++steps > cap + 1)
+            {
+                o.fail("free list longer than the capacity (cyclic?)");
+                return;
+            }
+            long k = zone_of(it);
+            if (k < 0)
+            {
+                o.fail("free list entry outside every zone");
+                return;
+            }
+            size_t off = (uint8_t *)it - zones[(size_t)k].buf->p;
+            if (off % zones[(size_t)k].e) o.fail("free list entry not on a cell boundary");
+            if (live.count({(size_t)k, off})) o.fail("live cell " + s(k) + ":" + s(off) + " is on the free list");
+            if (!seen.insert({(size_t)k, off}).second) o.fail("cell twice on the free list");
+        }
+        if (seen.size() + live.size() != cap)
+            o.fail("free cells " + s(seen.size()) + " + live cells " + s(live.size()) + " != capacity " + s(cap) + " (cells lost)");
+    }
+};
+static std::unique_ptr<MPoolCase> MC;
+
 // ---- static_object_pool<T, Cap>
 static std::set<const void *> sop_objs;
 static std::string sop_err;
+static long sop_ctor_runs = 0, sop_dtor_runs = 0;
+static const void *sop_last_ctor = nullptr, *sop_last_dtor = nullptr;
 template <size_t SZ, size_t AL> struct alignas(AL) Obj
 {
     unsigned char b[SZ];
     Obj()
     {
         if (!sop_objs.insert(this).second) sop_err = "constructed over a live object";
+        sop_ctor_runs++;
+        sop_last_ctor = this;
         for (size_t i = 0; i < SZ; i++) b[i] = pat((uintptr_t)this, i);
     }
     ~Obj()
     {
         if (!sop_objs.erase(this)) sop_err = "destroyed a dead object";
+        sop_dtor_runs++;
+        sop_last_dtor = this;
     }
     bool intact() const
     {
@@ -170,6 +273,7 @@ struct SopBase
     virtual size_t szT() = 0;
     virtual size_t alT() = 0;
     virtual bool intact(void *) = 0;
+    virtual void engage(void *zone, size_t ncells) = 0; // through freelist()
 };
 template <size_t SZ, size_t AL, size_t CAP> struct SopImpl : SopBase
 {
@@ -188,6 +292,7 @@ template <size_t SZ, size_t AL, size_t CAP> struct SopImpl : SopBase
     size_t szT() { return SZ; }
     size_t alT() { return AL; }
     bool intact(void *q) { return ((T *)q)->intact(); }
+    void engage(void *zone, size_t ncells) { pool_engage(p->freelist(), zone, ncells * sizeof(typename P::storage_type), sizeof(typename P::storage_type)); }
 };
 struct SopKind
 {
@@ -203,7 +308,22 @@ static const std::vector<SopKind> sop_kinds = {
 struct SopCase
 {
     std::unique_ptr<SopBase> p;
-    std::set<size_t> live;
+    std::set<std::pair<size_t, size_t>> live; // (zone, offset); zone 0 = the pool's own storage
+    std::vector<std::pair<char *, size_t>> extra; // zones engaged through freelist(): base, cells
+    size_t cap = 0;
+    ~SopCase()
+    {
+        p.reset();
+        for (auto &z : extra) free(z.first);
+    }
+    char *zbase(size_t k) { return k == 0 ? p->base() : extra[k - 1].first; }
+    size_t zcells(size_t k) { return k == 0 ? p->cap() : extra[k - 1].second; }
+    long zone_of(const void *q)
+    {
+        for (size_t k = 0; k <= extra.size(); k++)
+            if ((const char *)q >= zbase(k) && (const char *)q < zbase(k) + zcells(k) * p->storage()) return (long)k;
+        return -1;
+    }
 };
 static std::unique_ptr<SopCase> SC;
 
@@ -401,11 +521,21 @@ static void run_op(const std::vector<std::string> &w, const std::string &, out &
     if (op == "reset")
     {
         PC.reset();
+        MC.reset();
         SC.reset();
         HC.reset();
         sop_objs.clear();
         sop_err.clear();
+        sop_ctor_runs = sop_dtor_runs = 0;
         const std::string &k = w[1];
+        if (k == "mpool")
+        {
+            MC.reset(new MPoolCase());
+            pool_init(&MC->head);
+            o.result = "ok " + s(pool_avail(&MC->head));
+            if (pool_alloc(&MC->head) != nullptr) o.fail("pool without a zone hands out a cell");
+            return;
+        }
         if (k == "pool" || k == "ipool")
         {
             PC.reset(new PoolCase());
@@ -444,6 +574,7 @@ static void run_op(const std::vector<std::string> &w, const std::string &, out &
                 o.result = "bad-op";
                 return;
             }
+            SC->cap = cap;
             o.result = s(SC->p->storage()) + " " + s(SC->p->avail());
             if (SC->p->avail() != cap) o.fail("fresh object pool: avail != Capacity");
             if ((uintptr_t)SC->p->base() % std::max(al, (size_t)8)) o.fail("storage misaligned for T");
@@ -479,6 +610,54 @@ static void run_op(const std::vector<std::string> &w, const std::string &, out &
             return;
         }
         o.result = "bad-op";
+        return;
+    }
+    // ------------------------------------------------ pool fed from several zones
+    if (MC)
+    {
+        if (op == "z")
+        {
+            size_t n = strtoul(w[1].c_str(), 0, 10), e = strtoul(w[2].c_str(), 0, 10);
+            size_t before = pool_avail(&MC->head);
+            MC->zones.push_back(MZone{std::unique_ptr<exact_buf>(new exact_buf(n * e)), n, e});
+            pool_engage(&MC->head, MC->zones.back().buf->p, n * e, e);
+            MC->cap += n;
+            o.result = s(pool_avail(&MC->head));
+            if (pool_avail(&MC->head) != before + n) o.fail("pool_engage of " + s(n) + " cells: avail " + s(before) + " -> " + s(pool_avail(&MC->head)));
+            o.tag(before ? "engage-onto-nonempty-list" : MC->zones.size() > 1 ? "engage-further-zone" : "engage-first-zone");
+            if (n == 0) o.tag("engage-empty-zone");
+        }
+        else if (op == "a")
+        {
+            void *q = pool_alloc(&MC->head);
+            o.result = MC->name(q) + " " + s(pool_avail(&MC->head));
+            MC->check_new(q, o);
+            o.tag(q ? (MC->zones.size() > 1 ? "alloc-multizone" : "alloc") : "alloc-null");
+        }
+        else if (op == "f")
+        {
+            size_t k = strtoul(w[1].c_str(), 0, 10), off = strtoul(w[2].c_str(), 0, 10);
+            MC->live.erase({k, off});
+            pool_free(&MC->head, MC->zones[k].buf->p + off);
+            o.result = s(pool_avail(&MC->head));
+            o.tag("free");
+        }
+        else if (op == "in")
+        {
+            size_t k = strtoul(w[1].c_str(), 0, 10), off = strtoul(w[2].c_str(), 0, 10);
+            int r = pool_in_freelist(&MC->head, MC->zones[k].buf->p + off);
+            o.result = r ? "1" : "0";
+            if ((r != 0) == (MC->live.count({k, off}) != 0)) o.fail("pool_in_freelist disagrees with the shadow map");
+        }
+        else
+        {
+            o.result = "bad-op";
+            return;
+        }
+        MC->check_patterns(o);
+        MC->check_freelist(o);
+        if (pool_avail(&MC->head) != MC->cap - MC->live.size())
+            o.fail("avail " + s(pool_avail(&MC->head)) + " != capacity - live = " + s(MC->cap) + " - " + s(MC->live.size()));
         return;
     }
     // ------------------------------------------------ pool ops
@@ -572,35 +751,60 @@ static void run_op(const std::vector<std::string> &w, const std::string &, out &
     if (SC)
     {
         SopBase &p = *SC->p;
+        long c0 = sop_ctor_runs, d0 = sop_dtor_runs;
         if (op == "c")
         {
             void *q = p.create();
             if (q)
             {
-                size_t off = (char *)q - p.base();
-                if ((char *)q < p.base() || off + p.storage() > p.cap() * p.storage()) o.fail("object outside the storage");
+                long k = SC->zone_of(q);
+                size_t off = k < 0 ? 0 : (size_t)((char *)q - SC->zbase((size_t)k));
+                if (k < 0) o.fail("object outside the storage and the engaged zones");
                 else if (off % p.storage()) o.fail("object not on a cell boundary");
+                else if (off + p.storage() > SC->zcells((size_t)k) * p.storage()) o.fail("object reaches behind its zone");
                 if ((uintptr_t)q % p.alT()) o.fail("object misaligned for T");
-                if (SC->live.count(off)) o.fail("cell handed out twice");
-                if (SC->live.size() >= p.cap()) o.fail("non-null although Capacity objects are live");
-                SC->live.insert(off);
-                o.result = s(off);
-                o.tag("create");
+                if (k >= 0 && SC->live.count({(size_t)k, off})) o.fail("cell handed out twice");
+                if (SC->live.size() >= SC->cap) o.fail("non-null although Capacity objects are live");
+                if (sop_ctor_runs != c0 + 1 || sop_last_ctor != q) o.fail("create: the constructor did not run exactly once on the returned cell");
+                if (k >= 0) SC->live.insert({(size_t)k, off});
+                o.result = k <= 0 ? s(off) : s(k) + ":" + s(off);
+                o.tag(k > 0 ? "create-in-extra-zone" : "create");
             }
             else
             {
-                if (SC->live.size() != p.cap()) o.fail("null with free cells left");
+                if (SC->live.size() != SC->cap) o.fail("null with free cells left");
+                if (sop_ctor_runs != c0) o.fail("create returned null but a constructor ran");
                 o.result = "null";
                 o.tag("create-null");
             }
+            if (sop_dtor_runs != d0) o.fail("create ran a destructor");
         }
         else if (op == "d")
         {
-            size_t off = strtoul(w[1].c_str(), 0, 10);
-            SC->live.erase(off);
-            p.destroy(p.base() + off);
+            size_t k = w.size() > 2 ? strtoul(w[1].c_str(), 0, 10) : 0;
+            size_t off = strtoul(w[w.size() > 2 ? 2 : 1].c_str(), 0, 10);
+            SC->live.erase({k, off});
+            void *q = SC->zbase(k) + off;
+            p.destroy(q);
+            if (sop_dtor_runs != d0 + 1 || sop_last_dtor != q) o.fail("destroy: the destructor did not run exactly once on the object");
+            if (sop_ctor_runs != c0) o.fail("destroy ran a constructor");
             o.result = "";
             o.tag("destroy");
+        }
+        else if (op == "x")
+        {
+            size_t n = strtoul(w[1].c_str(), 0, 10);
+            size_t al = std::max(p.alT(), (size_t)8);
+            char *z = (char *)aligned_alloc(al, n ? n * p.storage() : al); // exactly sized (ASan)
+            SC->extra.push_back({z, n});
+            size_t before = p.avail();
+            p.engage(z, n);
+            SC->cap += n;
+            o.result = s(p.avail());
+            if (p.avail() != before + n) o.fail("pool_engage(freelist(), " + s(n) + " cells): avail " + s(before) + " -> " + s(p.avail()));
+            if (sop_ctor_runs != c0 || sop_dtor_runs != d0) o.fail("engage ran a constructor / destructor");
+            o.tag(before ? "sop-engage-onto-nonempty-list" : "sop-engage");
+            goto sop_checks;
         }
         else
         {
@@ -608,12 +812,14 @@ static void run_op(const std::vector<std::string> &w, const std::string &, out &
             return;
         }
         if (!o.result.empty()) o.result += " ";
-        o.result += s(p.avail()) + " " + s(sop_objs.size());
+        o.result += s(p.avail()) + " " + s(sop_objs.size()) + " " + s(sop_ctor_runs) + " " + s(sop_dtor_runs);
+    sop_checks:
         if (!sop_err.empty()) o.fail(sop_err);
         if (sop_objs.size() != SC->live.size()) o.fail("constructed objects != live cells");
-        for (size_t off : SC->live)
-            if (!p.intact(p.base() + off)) o.fail("contents of live object at " + s(off) + " changed");
-        if (p.avail() != p.cap() - SC->live.size()) o.fail("avail != Capacity - live");
+        if (sop_ctor_runs - sop_dtor_runs != (long)SC->live.size()) o.fail("constructor runs - destructor runs != live objects");
+        for (auto &c : SC->live)
+            if (!p.intact(SC->zbase(c.first) + c.second)) o.fail("contents of live object at " + s(c.first) + ":" + s(c.second) + " changed");
+        if (p.avail() != SC->cap - SC->live.size()) o.fail("avail != Capacity - live");
         return;
     }
     if (HC)
@@ -1013,13 +1219,121 @@ static void gen_pool_case(rng &r, bool ip, size_t e, size_t cap)
     probes();
 }
 
-static void gen_sop_case(rng &r, const SopKind &k)
+// one pool_head, 1..4 zones of different sizes engaged at arbitrary points of the history
+// (shape 0: random; 1: all zones back to back, then exhaust; 2: exhaust, engage onto the drained pool,
+//  free some, engage onto a non-empty list; 3: alloc/free a little, then engage), interleaved with alloc/free.
+static void gen_mpool_case(rng &r, int shape, bool mixed_elemsz)
+{
+    puts("reset mpool");
+    size_t nz = (size_t)r.range(1, 4);
+    if (shape && nz < 2) nz = 2;
+    size_t e0 = 8 * (size_t)r.range(1, 8);
+    std::vector<std::pair<size_t, size_t>> zs; // cells, elemsz
+    for (size_t k = 0; k < nz; k++)
+    {
+        size_t n = r.chance(8) ? 0 : (size_t)r.range(1, r.chance(20) ? 33 : 9);
+        zs.push_back({n, mixed_elemsz ? 8 * (size_t)r.range(1, 8) : e0});
+    }
+    // the generator mirrors the LIFO discipline of the free list to know which cells are live
+    std::vector<std::pair<size_t, size_t>> freel, live;
+    size_t engaged = 0, cap = 0;
+    auto engage = [&]() {
+        if (engaged >= nz) return;
+        printf("z %zu %zu\n", zs[engaged].first, zs[engaged].second);
+        for (size_t i = 0; i < zs[engaged].first; i++) freel.push_back({engaged, i * zs[engaged].second});
+        cap += zs[engaged].first;
+        engaged++;
+    };
+    auto alloc = [&]() {
+        puts("a");
+        if (!freel.empty())
+        {
+            live.push_back(freel.back());
+            freel.pop_back();
+        }
+    };
+    auto rel = [&](size_t i) {
+        printf("f %zu %zu\n", live[i].first, live[i].second);
+        freel.push_back(live[i]);
+        live.erase(live.begin() + i);
+    };
+    auto probe = [&]() {
+        if (!engaged) return;
+        size_t k = (size_t)r.below(engaged);
+        if (zs[k].first) printf("in %zu %zu\n", k, (size_t)r.below(zs[k].first) * zs[k].second);
+    };
+    auto exhaust = [&]() {
+        size_t todo = freel.size() + 2;
+        for (size_t i = 0; i < todo; i++) alloc();
+    };
+    auto rel_some = [&]() {
+        int order = (int)r.below(3);
+        size_t keep = r.below(live.size() + 1);
+        while (live.size() > keep) rel(order == 0 ? live.size() - 1 : order == 1 ? 0 : (size_t)r.below(live.size()));
+    };
+    switch (shape)
+    {
+    case 1:
+        while (engaged < nz) engage();
+        exhaust();
+        probe();
+        rel_some();
+        break;
+    case 2:
+        engage();
+        exhaust();
+        engage(); // onto a drained pool
+        exhaust();
+        rel_some();
+        probe();
+        while (engaged < nz)
+        {
+            engage(); // onto a list that holds freed cells
+            if (r.chance(50)) alloc();
+        }
+        exhaust();
+        break;
+    case 3:
+        engage();
+        for (int i = 0, n = (int)r.range(1, 6); i < n; i++) alloc();
+        if (!live.empty()) rel((size_t)r.below(live.size()));
+        if (!live.empty() && r.chance(50)) rel((size_t)r.below(live.size()));
+        while (engaged < nz)
+        {
+            engage();
+            if (r.chance(60)) alloc();
+            if (!live.empty() && r.chance(60)) rel((size_t)r.below(live.size()));
+        }
+        exhaust();
+        break;
+    default:
+        if (r.chance(70)) engage();
+        break;
+    }
+    int n = (int)r.range(8, 50);
+    for (int i = 0; i < n; i++)
+    {
+        unsigned k = (unsigned)r.below(100);
+        if (engaged < nz && k < 12) engage();
+        else if (live.empty() || k < 60) alloc();
+        else rel((size_t)r.below(live.size()));
+        if (r.chance(15)) probe();
+    }
+    while (engaged < nz) engage();
+    // everything back, then exactly the capacity (the sum over all zones) must be handed out again
+    while (!live.empty()) rel((size_t)r.below(live.size()));
+    for (size_t i = 0; i < cap + 1; i++) alloc();
+    probe();
+}
+
+static void gen_sop_case(rng &r, const SopKind &k, bool extra_zones = false)
 {
     printf("reset sop %zu %zu %zu\n", k.sz, k.al, k.cap);
     size_t al = std::max(k.al, (size_t)8);
     size_t st = (std::max(k.sz, (size_t)8) + al - 1) / al * al;
-    std::vector<size_t> freel, live;
-    for (size_t i = 0; i < k.cap; i++) freel.push_back(i * st);
+    std::vector<std::pair<size_t, size_t>> freel, live; // (zone, offset)
+    for (size_t i = 0; i < k.cap; i++) freel.push_back({0, i * st});
+    size_t nzones = 1, cap = k.cap;
     auto create = [&]() {
         puts("c");
         if (!freel.empty())
@@ -1029,19 +1343,31 @@ static void gen_sop_case(rng &r, const SopKind &k)
         }
     };
     auto destroy = [&](size_t i) {
-        printf("d %zu\n", live[i]);
+        if (live[i].first) printf("d %zu %zu\n", live[i].first, live[i].second);
+        else printf("d %zu\n", live[i].second);
         freel.push_back(live[i]);
         live.erase(live.begin() + i);
     };
-    for (size_t i = 0; i < k.cap + 1; i++) create();
+    // a further zone handed to the pool through freelist()
+    auto engage = [&]() {
+        size_t n = r.chance(10) ? 0 : (size_t)r.range(1, 6);
+        printf("x %zu\n", n);
+        for (size_t i = 0; i < n; i++) freel.push_back({nzones, i * st});
+        nzones++;
+        cap += n;
+    };
+    if (extra_zones && r.chance(30)) engage(); // onto the full list of the fresh pool
+    for (size_t i = 0; i < cap + 1; i++) create();
     int n = (int)r.range(5, 60);
     for (int i = 0; i < n; i++)
     {
-        if (live.empty() || r.chance(50)) create();
+        if (extra_zones && nzones < 4 && r.chance(8)) engage();
+        else if (live.empty() || r.chance(50)) create();
         else destroy((size_t)r.below(live.size()));
     }
     while (!live.empty()) destroy((size_t)r.below(live.size()));
-    for (size_t i = 0; i < k.cap + 1; i++) create();
+    if (extra_zones && nzones < 4) engage();
+    for (size_t i = 0; i < cap + 1; i++) create();
     // destroy everything: the harness deletes the pool afterwards
     while (!live.empty()) destroy(live.size() - 1);
 }
@@ -1070,6 +1396,11 @@ static void gen(rng &r, const std::string &tier)
                 gen_pool_case(r, (e / 4 + cap) % 2, e, cap);
     for (auto &k : sop_kinds)
         for (int i = 0; i < (th ? 4 : 1); i++) gen_sop_case(r, k);
+    // object pools extended by further zones through freelist()
+    for (auto &k : sop_kinds)
+        for (int i = 0; i < (th ? 4 : 1); i++) gen_sop_case(r, k, true);
+    // ---- one pool fed from 1..4 zones engaged at arbitrary points of the history
+    for (int i = 0; i < (th ? 1200 : 160); i++) gen_mpool_case(r, i % 4, i % 5 == 4);
     // ---- heap: exhaustive short histories over a 4-size alphabet
     // (rounded to 8, 64, 128, 256 bytes; merged neighbours give 80, 136, … so
     //  that exact fit, whole-chunk fit with an 8 byte rest and splits all occur)
